@@ -4,6 +4,7 @@ package main
 
 import (
 	"fmt"
+	"os"
 	"sort"
 	"strconv"
 	"strings"
@@ -295,6 +296,12 @@ func init() {
 	}}
 	checkDefs["C19"] = &checkDef{level: "model_checking", pkgs: []string{fsmPkg}, run: func(cr *CheckRun) {
 		cr.owner = ownerC19
+		cr.groupKey = func(v Violation) string {
+			if strings.HasPrefix(v.Label, "restore-succeeds:") || strings.HasPrefix(v.Label, "payload-roundtrip:") || strings.HasPrefix(v.Label, "restored-machine-state:") {
+				return v.Label // the label names the state; the event of the step is irrelevant
+			}
+			return v.Label + " @ " + v.Case
+		}
 		g := fsmCommon(cr, tierN(cr))
 		cr.explanation = "Every abstract state of the fixpoint is dumped (json.Marshal model) and restored by the real FromDump; payload round trip is compared field by field; restored-vs-in-memory behaviour is compared by the two-step harness."
 		names := map[string]bool{}
@@ -307,7 +314,9 @@ func init() {
 		}
 		sort.Strings(ns)
 		cr.extra["reachable_state_names"] = ns
-		fsmStep2(cr, g)
+		if os.Getenv("GOSX_SKIP_STEP2") == "" {
+			fsmStep2(cr, g)
+		}
 	}}
 	checkDefs["C02"] = &checkDef{level: "model_checking", pkgs: []string{fsmPkg}, run: func(cr *CheckRun) {
 		cr.owner = ownerC02
@@ -325,6 +334,21 @@ func fsmStep2(cr *CheckRun, g *fsmGraph) {
 	sort.Strings(states)
 	var jobs []Job
 	opts := defaultOpts()
+	if cr.Tier != "thorough" {
+		// quick tier: one representative abstract state per (state name, n); thorough: every abstract state
+		seen := map[string]bool{}
+		var sel []string
+		for _, a := range states {
+			f := strings.Split(a, ";")
+			k := f[0] + ";" + f[1]
+			if !seen[k] {
+				seen[k] = true
+				sel = append(sel, a)
+			}
+		}
+		states = sel
+		cr.bounds["two_step_harness"] = fmt.Sprintf("quick: %d representative abstract states (one per state name and n) x 18 first events x 18 second events; thorough: all abstract states", len(sel))
+	}
 	for _, a := range states {
 		for _, e1 := range fsmEvents {
 			jobs = append(jobs, Job{Pkg: fsmPkg, Fn: "VF_FSMStep2", Opts: opts, Tag: "state=" + a + " e1=" + e1, Case: "state=" + absState(a) + " e1=" + e1,
